@@ -10,7 +10,7 @@ if grep -q '^package scratch' "$t"; then
   cp "$t" "$d/demo_test.go"; cp "$repo/go.sum" "$d/"
   gov=$(grep '^go ' "$repo/go.mod"); tc=$(grep '^toolchain ' "$repo/go.mod" || true)
   printf 'module scratch\n%s\n%s\nrequire github.com/parquet-go/parquet-go v0.0.0\nreplace github.com/parquet-go/parquet-go => %s\n' "$gov" "$tc" "$repo" > "$d/go.mod"
-  (cd "$d" && go test -vet=off -count=1 -timeout 300s ./... 2>&1 | tail -15)
+  (cd "$d" && go test ${RUNDEMO_FLAGS:-} -vet=off -count=1 -timeout 300s ./... 2>&1 | tail -${RUNDEMO_TAIL:-15})
 else
   pkgdir=$(grep -m1 '^// dir:' "$t" | sed 's/^\/\/ dir: *//'); pkgdir="${pkgdir:-.}"
   printf '{"Replace":{"%s/%s/zz_demo_test.go":"%s"}}' "$repo" "$pkgdir" "$t" > "$d/ov.json"
